@@ -622,6 +622,21 @@ def step (st : DSt) (ts : List String) : DSt × String :=
         showOut "su3" st st.q (rejSample3 h st.numIters mc c (mkDraws st.q) (st.cur, ()))
       else (st, "bad-op")
     | _, _ => (st, "bad-op")
+  | ["issalloc", obj, iters] =>
+    if st.skind == "" then (st, "bad-op") else
+    match (if obj == "pl" then some ObjKind.pathLength else if obj == "int" then some ObjKind.other else none), parseNat? iters with
+    | some o, some it =>
+      let r := allocInformed o it
+      (st, s!"issalloc kind={if r.1 == .direct then "direct" else "rej"} iters={r.2} has={if r.1 == .direct then 1 else 0}")
+    | _, _ => (st, "bad-op")
+  | op :: seed :: par :: rest =>
+    -- InformedStateSampler::sampleUniformNear / sampleGaussian forward to the wrapper's own base sampler (whose behaviour is C08's):
+    -- the only modelled facts are "forwarded, informed sampler untouched, inside the bounds"
+    if (op == "issn" || op == "issg") && st.kind == "rv" && st.skind != "" then
+      match parseNat? seed, parseFloatBits? par, takeVec rest st.n with
+      | some sd, some _, some (_, []) => if sd == 0 then (st, "bad-op") else (st, s!"{op} fwd=1 within=1 inb=1")
+      | _, _, _ => (st, "bad-op")
+    else (st, "bad-op")
   | _ => (st, "bad-op")
 
 end OmplModel.Driver.PhsDrv
